@@ -386,8 +386,19 @@ impl File {
     /// Iterate over the children of the selected declaration.
     /// /!\ This method is unsafe to use if the file contains cyclic
     /// declarations, use with caution.
+    ///
+    /// The children are listed in source order: the analyzer moves a
+    /// declaration in front of its first user, so the position of a child
+    /// in `declarations` depends on which other (unrelated) declarations
+    /// are present, and the code generated for a parent must not.
     pub fn iter_children<'d>(&'d self, decl: &'d Decl) -> impl Iterator<Item = &'d Decl> {
-        self.declarations.iter().filter(|other_decl| other_decl.parent_id() == decl.id())
+        let mut children = self
+            .declarations
+            .iter()
+            .filter(|other_decl| other_decl.parent_id() == decl.id())
+            .collect::<Vec<_>>();
+        children.sort_by_key(|child| child.loc.start.offset);
+        children.into_iter()
     }
 }
 
